@@ -79,13 +79,13 @@ func jobsFor(id, tier string) []*Job {
 	switch id {
 	case "C01":
 		var bp [][]int
-		for sh := 0; sh < 12; sh++ {
-			bp = append(bp, []int{sh, 12, 0}, []int{sh, 12, 1})
+		for sh := 0; sh < 16; sh++ {
+			bp = append(bp, []int{sh, 16, 0, 1}, []int{sh, 16, 1, 1}) // with the consumer step
 		}
 		shards2 := 24
 		for sh := 0; sh < shards2; sh++ {
 			if thorough || sh%4 == 0 {
-				bp = append(bp, []int{sh, shards2, 2})
+				bp = append(bp, []int{sh, shards2, 2, 0})
 			}
 		}
 		bj := wmk("builtin", "zzverifw.H_C01_builtin", bp)
@@ -131,6 +131,7 @@ func jobsFor(id, tier string) []*Job {
 			}
 		}
 		sc := mk("scan", "zzverifw.H_C16_scan", cp)
+		add(split(mk("chunks", "zzverifw.H_C16_chunks", ints(0, 3)))...)
 		sc.Overrides = map[string]string{"github.com/macrat/simplexer.shiftPos": "github.com/macrat/simplexer.vShiftPos", "(*github.com/macrat/simplexer.Lexer).makeError": "github.com/macrat/simplexer.vMakeError", "?(*github.com/macrat/simplexer.Lexer).trimRightNullStrings": "github.com/macrat/simplexer.vTrim"}
 		add(split(sc)...)
 	case "C02":
@@ -159,7 +160,7 @@ func jobsFor(id, tier string) []*Job {
 		add(split(mj)...)
 	case "C19":
 		var fp [][]int
-		for hh := 0; hh < 14; hh++ {
+		for hh := 0; hh < 17; hh++ {
 			if thorough {
 				fp = append(fp, []int{hh, -1}) // every later program
 			} else {
@@ -206,19 +207,27 @@ func jobsFor(id, tier string) []*Job {
 		if thorough {
 			nmax = 3
 		}
-		var lp, rp [][]int
-		for n := 1; n <= nmax; n++ {
-			for c := 0; c < 4; c++ {
-				lp = append(lp, []int{n, c, 0})
+		var lp, rp, scp [][]int
+		for nk := 0; nk <= 1; nk++ { // nk = 1: nil values are made with Nil.bear({}).new
+			for n := 1; n <= nmax; n++ {
+				if nk == 1 && n != 2 && !thorough {
+					continue
+				}
+				for c := 0; c < 4; c++ {
+					lp = append(lp, []int{n, c, 0, nk})
+				}
+				for c := 0; c < 3; c++ {
+					rp = append(rp, []int{n, c, nk})
+				}
 			}
-			for c := 0; c < 3; c++ {
-				rp = append(rp, []int{n, c})
+			for c := 0; c < 4; c++ {
+				scp = append(scp, []int{c, nk})
 			}
 		}
-		lp = append(lp, []int{2, 0, 1}, []int{2, 2, 1})
+		lp = append(lp, []int{2, 0, 1, 0}, []int{2, 2, 1, 0})
 		add(split(wmk("list", "zzverifw.H_C04_list", lp))...)
 		add(split(wmk("reduce", "zzverifw.H_C04_reduce", rp))...)
-		add(split(wmk("scalar", "zzverifw.H_C04_scalar", ints(0, 3)))...)
+		add(split(wmk("scalar", "zzverifw.H_C04_scalar", scp))...)
 		add(split(wmk("recv", "zzverifw.H_C04_recv", ints(0, 6)))...)
 	case "C09":
 		op := [][]int{{1, 0}, {2, 0}, {3, 0}, {2, 2}, {1, 2}}
@@ -271,6 +280,8 @@ func jobsFor(id, tier string) []*Job {
 			kmax = 3
 		}
 		add(split(wmk("try", "zzverifw.H_C13_try", ints(1, kmax)))...)
+		ru := wmk("reuse", "zzverifw.H_C13_reuse", nil)
+		add(&ru)
 	case "C18":
 		var eqp [][]int
 		for a := 0; a < 14; a++ {
@@ -415,6 +426,7 @@ func boundsFor(id, tier string, jobs []*Job) map[string]interface{} {
 			b["arity"] = "0 and 1 argument for every built-in; 2 arguments for a quarter of them (6 of 24 shards)"
 		}
 		b["argument_shapes"] = "symbolic int, symbolic float, nil, bool, strs, arrays, objects, maps, ranges, function, iterator, Either values, error value, prototypes, bear children, symbol, char (solver choice per position)"
+		b["second_step"] = "for arity 0..1 every non-error result is then printed, compared, unpacked with * and ** into calls and literals, iterated and interpolated (14 consumers)"
 		b["singletons"] = "every name of the constants environment x 15 generic probes (printing, lookup, comparison, bear, which, try)"
 	case "C17":
 		b["int_literals"] = "decimal / hex / octal / binary: 7..16 spellings each (underscores, leading zeros, prefix case, values at and beyond 2^63-1 and 2^64-1)"
@@ -429,6 +441,7 @@ func boundsFor(id, tier string, jobs []*Job) map[string]interface{} {
 	case "C16":
 		b["state"] = "buffered bytes 0..4096, unread input 0..8192, run of blanks before the token 0..3000, token length 1..1024 and 1..6000 (each symbolic)"
 		b["reader"] = "full reader and arbitrary short reads"
+		b["content_level"] = "4 concrete sources with multi-byte characters in strings, raw strings, comments, char literals and interpolations, lexed by the real token table through a reader with a solver-chosen chunk size from {1, 2, 3, 5, 7, 16, 2048}; the token texts must equal those of a single full read"
 		if tier == "thorough" {
 			b["reads_per_scan"] = "at most 6"
 		} else {
@@ -443,11 +456,11 @@ func boundsFor(id, tier string, jobs []*Job) map[string]interface{} {
 		}
 		b["mixed_forms"] = "25 templates: prefix vs chain / infix / **, chain vs infix, indexing and calling vs prefix, calls and indexes as operands, := += => (right-to-left, relative levels), return / raise, if / if-else with infix conditions and branches, arguments and index expressions — infix slots are solver choices (third slot: one operator per level)"
 	case "C19":
-		b["program_family"] = "14 programs: value, raise, nested raise, the variable _, abstract Either props, NoPropErr, shadowing built-in names, failing chain, bear, try capturing _, raising defer, abandon, interpolation"
+		b["program_family"] = "17 programs (incl. three that run built-in iterators past their end): value, raise, nested raise, the variable _, abstract Either props, NoPropErr, shadowing built-in names, failing chain, bear, try capturing _, raising defer, abandon, interpolation"
 		if tier == "thorough" {
 			b["pairs"] = "every (history program, later program) pair: 14 x 14, later program a solver choice"
 		} else {
-			b["pairs"] = "every history program x later program in {same program, _, Either.A, plain raise} (solver choice)"
+			b["pairs"] = "every history program x later program in {same program, _, Either.A, plain raise, exhausted array iterator, exhausted str iterator after withI} (solver choice)"
 		}
 		b["runtest"] = "3 first files x 3 second files through the real setup + runTest"
 	case "C06":
@@ -465,7 +478,7 @@ func boundsFor(id, tier string, jobs []*Job) map[string]interface{} {
 			b["elements"] = "arrays of 1..2 elements"
 		}
 		b["contexts"] = "list chains @ =@ ~@ &@ (with and without a [] chain argument), reduce chains $ =$ ~$ from an initial accumulator, scalar chains . =. ~. &. ; each in property-call, literal-call and variable-call form"
-		b["payloads"] = "element payload any int in (-1000, 1000) or nil; accumulator payload any int in (-1000, 1000)"
+		b["payloads"] = "element payload any int in (-1000, 1000) or nil; accumulator payload any int in (-1000, 1000); nil values are the literal nil and, in a second family, nils made with Nil.bear({}).new (both as elements and as call results)"
 		b["receivers"] = "additionally int, str, range, obj, map, iterator, arr receivers with the total property S (three-form agreement only)"
 	case "C09":
 		if tier == "thorough" {
@@ -503,6 +516,7 @@ func boundsFor(id, tier string, jobs []*Job) map[string]interface{} {
 		b["step_forms"] = "property call, literal call, operator call in chain form — all 3^k combinations (solver choices)"
 		b["failure"] = "K any value in [0, k] (0 = none); error kind one of ValueErr, TypeErr, ZeroDivisionErr, NameErr, NoPropErr, AssertionErr"
 		b["accessors"] = "A, val, err, val?, err?, or, abandon, catch (matching and non-matching type), ignore"
+		b["reuse"] = "an Either bound to a name and continued two or three ways (operator step, literal step, failing step, catch), receiver any int in (2, 1000)"
 	case "C18":
 		b["payloads"] = "ints: any int64; floats: any 64-bit pattern; strs: pool of 4; containers: one symbolic int element/key/bound"
 		if tier == "thorough" {
